@@ -270,6 +270,25 @@ func (p c07) Exec(c *fw.Ctx, u *fw.Unit) {
 				txt = string(rs)
 			}
 			c3993Check(c, fam, txt, r.Intn(2) == 1, full)
+			if !full && i%3 == 0 && len(txt) > 0 {
+				// the same text, then the text with its own check characters appended as
+				// data (what a caller does who computes them himself), then the text again
+				ext := []string{}
+				if fam == "code39" {
+					if ch := refdec.Code39CheckChar(txt); ch != 0 {
+						ext = append(ext, txt+string(ch))
+					}
+				} else if cc, kk, ok := refdec.Code93CheckChars(txt); ok {
+					ext = append(ext, txt+string(cc), txt+string(cc)+string(kk))
+				}
+				c3993Check(c, fam, txt, true, false)
+				for _, e := range ext {
+					c3993Check(c, fam, e, true, false)
+					c3993Check(c, fam, e, false, false)
+				}
+				c3993Check(c, fam, txt, true, false)
+				c.Cover("text_then_text_plus_own_check_characters", fam)
+			}
 			if i%4 == 0 {
 				c3993AllMixes(c, fam, txt, r.Intn(2) == 1)
 			}
